@@ -70,7 +70,7 @@ class Hist(object):
     """concretises and model-executes one history"""
     def __init__(self, world, optable, active_excl, with_views=False):
         self.w = world; self.ops = optable; self.excl = set(active_excl); self.steps = []; self.excluded = collections.Counter()
-        self.with_views = with_views; self.labels = set(); self.inserted_parents = set()
+        self.with_views = with_views; self.labels = set(); self.inserted_parents = set(); self.tainted = set()
 
     # ---- operand selection ---------------------------------------------------------------------
     def live(self): return [n for n in self.w.nodes if not n.dead]
@@ -131,6 +131,7 @@ class Hist(object):
             # known finding: a node inserted into itself is accepted (FR: endless loop)
             self.excl_check('C13-self-insert', nc is p and p.t in (EL, FR) and not p.readonly)
             if doc_of(nc) is not doc_of(p): L.add('cross-document')
+            if op in ('app', 'ins'): self.taint_check(p, nc, None if op == 'app' else (None if c % 4 == 0 else self.childish(p, c // 4)), None)
             if op == 'app':
                 self.doc_frag_partial(p, nc, None)
                 r = w.appendChild(p, nc)
@@ -147,6 +148,7 @@ class Hist(object):
                 old = self.childish(p, c)
                 if old is None: return None
                 self.doc_frag_partial(p, nc, old, replacing=old)
+                self.taint_check(p, nc, old, old)
                 if p.id in self.inserted_parents and old.parent is p: L.add('remove-after-insert')
                 r = w.replaceChild(p, nc, old)
                 return 'rep\t%s\t%s\t%s' % (I(p), I(nc), I(old)), r
@@ -174,7 +176,8 @@ class Hist(object):
                 codes, prefix, local = dm.qname_errors(ns, q, True)
                 if not codes and not e.readonly:
                     f = w._find_attr_ns(e, ns, local)
-                    self.excl_check('C13-setAttributeNS-keeps-prefix', bool(f) and f[0].prefix != prefix)
+                    self.excl_check('C13-setAttributeNS-prefixed-lookup', bool(f) and prefix is not None)
+                    self.excl_check('C13-setAttributeNS-keeps-prefix', bool(f) and prefix is None and f[0].prefix is not None)
                 return 'satns\t%s\t%s\t%s\t%s' % (I(e), esc(ns), esc(q), esc(s)), w.setAttributeNS(e, ns, q, s)
             if op == 'rat': nm = attrname(b); return 'rat\t%s\t%s' % (I(e), esc(nm)), w.removeAttribute(e, nm)
             if op == 'ratns': ns, ln = attrns(b); return 'ratns\t%s\t%s\t%s' % (I(e), esc(ns), esc(ln)), w.removeAttributeNS(e, ns, ln)
@@ -238,7 +241,11 @@ class Hist(object):
             n = self.pick([x for x in self.live() if x.t not in (DOC, DT, ENT, NOT)], a)
             if n is None: return None
             deep = b % 2
-            return 'clone\t%s\t%d' % (I(n), deep), w.cloneNode(n, bool(deep))
+            r = w.cloneNode(n, bool(deep))
+            # known finding: the clone of a first child carries the internal "first child" flag
+            if 'C13-clone-firstchild-flag' in self.excl and n.parent is not None and n.parent.children[0] is n and r is not None and not r.is_err():
+                self.tainted.add(r.ret)
+            return 'clone\t%s\t%d' % (I(n), deep), r
         if op == 'imp':
             doc = self.doc(a)
             n = self.pick([x for x in self.live() if x.t not in (ENT, NOT)], b)
@@ -250,6 +257,16 @@ class Hist(object):
 
     def concretise_ext(self, op, ab):
         return None
+
+    def taint_check(self, p, nc, ref, replacing):
+        """known finding C13-clone-firstchild-flag: such a clone must not become a non-first child"""
+        if nc not in self.tainted: return
+        codes = self.w._insert_codes(p, nc, ref if replacing is None else None, replacing=replacing)
+        if replacing is not None and replacing.parent is not p: codes.add(dm.NOT_FOUND)
+        if codes: return
+        first = (not p.children) if ref is None else (p.children[0] is ref)
+        if first: self.tainted.discard(nc); return
+        raise Excluded('C13-clone-firstchild-flag')
 
     def doc_frag_partial(self, p, nc, ref, replacing=None):
         """known finding: Document.insertBefore(fragment) moves the children one by one and fails half way when the
